@@ -9,7 +9,7 @@ def sh(c): return subprocess.run(c, shell=True, capture_output=True, text=True)
 props = sys.argv[2:]
 if not props:
   meta = json.load(open(d + '/meta.json'))
-  props = sorted(meta.get('alarms_now', {}))
+  props = sorted(meta.get('alarms_now') or meta.get('alarms_first_run') or {})
 assert sh('git -C /repo status --porcelain --untracked-files=no').stdout.strip() == ''
 assert sh('git -C /repo apply %s/patch.diff' % d).returncode == 0
 try:
